@@ -110,12 +110,20 @@ def main():
                     os.makedirs(dd, exist_ok=True)
                 paths = []
                 kinds = []
+                mode = rng.choice(['root', 'paths', 'paths_rev', 'dirs', 'merged'])
                 for ci, cont in enumerate(conts):
-                    kind = rng.choice(['json', 'gz', 'zip'])
+                    kind = rng.choice(['json', 'gz', 'zip'] if mode != 'merged' else ['json', 'gz'])
                     kinds.append(kind)
                     paths.append(write_container(rng, rng.choice(dirs), 'res%d' % ci, cont, kind))
-                mode = rng.choice(['root', 'paths', 'paths_rev', 'dirs'])
-                if mode == 'root':
+                if mode == 'merged':
+                    # the files are first merged by the command-line tool (files holding a list AND files holding a single record)
+                    from panqec.cli import merge_results
+                    merged = os.path.join(tmp, 'merged', 'merged-results.json.gz')
+                    os.makedirs(os.path.dirname(merged))
+                    with contextlib.redirect_stdout(io.StringIO()):
+                        merge_results.callback(result_files=tuple(paths), output_file=merged)
+                    arg = merged
+                elif mode == 'root':
                     arg = tmp
                 elif mode == 'paths':
                     arg = list(paths)
